@@ -121,7 +121,7 @@ CHECKS = {
     ),
     "C07": dict(
         cat="translation_validation",
-        technique="differential execution of original vs regenerated function under CPython with unique-id call logs and enumerated decision tapes; pipeline exception recorder; mechanism flags from M-a2s",
+        technique="differential execution of original vs regenerated function under CPython with unique-id call logs and enumerated decision tapes; pipeline exception recorder; mechanism flags of known findings read off the source and the reference run",
         text="Every generated program that the real pipeline accepts is validated against its "
              "input: same return repr / exception type / ordered external-call log on 3 argument "
              "tuples x all decision tapes the original consumes up to a bound; refusals are counted, "
@@ -152,8 +152,9 @@ CHECKS = {
         cat="exploration",
         technique="exception-type monitor over a completely enumerated finite space (statement classes x positions x carriers), dispatch confirmed by M-a2s",
         text="All unsupported ast.stmt classes of the running interpreter at nine structural "
-             "positions in three carriers plus non-function inputs; the space is enumerated "
-             "completely (exhaustive: true).",
+             "positions in three carriers, at the end of every nesting path over if/else/while/"
+             "while-else/for/for-else suites up to depth 3 (quick) / 5 (thorough), plus non-function "
+             "inputs; these spaces are enumerated completely (exhaustive: true); deeper paths sampled.",
         ref="10/C11",
         note="future statement classes without a template make the run inconclusive",
     ),
@@ -180,11 +181,26 @@ CHECKS = {
 NOT_APPLICABLE = {}
 
 
+FAULTS = {
+    "whole": "; fault histories: the same case first aborted by injected exceptions at random library calls (M-fault, sys.monitoring failpoints), stages called out of turn, refuse/mend/retry on the same object",
+    "edit": "; fault histories: edits refused half-way (unknown predecessor) followed by the hierarchy walker and more edits on the same object, injected failpoints (M-fault)",
+    "op": "; fault histories: one operation on graph A aborted by an injected exception or refused by the library, the same operation on graph B checked next (M-fault)",
+    "prog": "; fault histories: conversions of the same source aborted by injected exceptions (first one before any conversion of it completed) precede the checked run (M-fault)",
+}
+FAULT_KIND = {"C01": "whole", "C02": "whole", "C03": "whole", "C04": "whole+edit", "C05": "whole+edit",
+              "C06": "whole+edit", "C07": "prog", "C08": "prog", "C09": "prog", "C10": "prog",
+              "C12": "edit", "C13": "edit", "C14": "whole+edit", "C15": "whole+op", "C16": "whole+edit+op",
+              "C17": "whole+op", "C18": "whole"}
+
+
 def main():
     kf = os.path.join(HERE, "known_findings.txt")
     checks = []
     for pid in sorted(CHECKS):
-        c = CHECKS[pid]
+        c = dict(CHECKS[pid])
+        for fk in FAULT_KIND.get(pid, "").split("+"):
+            if fk:
+                c["technique"] = c["technique"] + FAULTS[fk]
         checks.append({
             "property_id": pid,
             "quick_cmd": f"./check {pid} quick",
